@@ -287,6 +287,14 @@ def r3_eager(c, facts):
                 vs = MF.slice_back(fn, val['l'], idx)
                 if any(n.endswith('eval::eval_terminal') for n, _, _ in vs['calls']):
                     filled = True
+        if not filled:
+            # `bindings().zip(arguments()).map(|(b, a)| Ok((b.ident(), eval_terminal(ctx, a, ..)?))).collect()`: the scope is
+            # collected (before the push) from a closure that evaluates the argument
+            fam = [x for x in facts.family(facts.fns.get(fn.id, fn)) if x.kind == 'Closure' and x.mir and P.call_blocks(x, 'eval::eval_terminal')]
+            sl2 = MF.slice_back(fn, arg['l'], idx)
+            for n, _, cb in sl2["calls"]:
+                if re.search(r'(::collect|::from_iter)$', P.strip(n)) and cb not in inside and fam:
+                    filled = True
         if filled:
             c.ok(R, {'pushed_scope': 'filled by insert(binding.ident(), eval_terminal(argument))'})
         else:
@@ -615,6 +623,15 @@ def map_write_policy(facts, fn, key_ty):
     if other:
         return 'first'
     if not ins:
+        # `iter.map(|..| (key, value)).collect::<HashMap<_, _>>()` (also through Result / Option), `HashMap::from([..])`,
+        # `extend`: the standard library inserts the pairs in order, a later pair replaces an earlier one
+        for b, t in nfn.calls():
+            d = P.strip((callee_of(t) or {}).get('def', ''))
+            dty = (t.get('dest') or {}).get('ty', '') if isinstance(t.get('dest'), dict) else ''
+            if not dty and 'dest' in t and isinstance(t['dest'], dict) and 'l' in t['dest']:
+                dty = nfn.mir['locals'][t['dest']['l']]['ty']
+            if re.search(r'(::collect|::from_iter|HashMap(::<[^>]*>)?::from|::extend)$', d) and re.search(r'(HashMap|IndexMap)<[^<>]*%s' % re.escape(key_ty), dty or ' '.join(a.get('ty', '') for a in t['args'][:1])):
+                return 'last'
         return None
     return 'last'
 
